@@ -1,6 +1,6 @@
 SPECIFICATION FairSpec
 CONSTANTS
-  Sess = {1, 2}
+  Sess = {1}
   MaxcSet = {1}
   MaxBytes = 2
   Dev = "none"
